@@ -23,11 +23,11 @@ func c01Scenarios() []vProdScenario {
 	}
 	if vh.Thorough() {
 		sc = append(sc,
-			vProdScenario{Name: "2p-flusher", Producers: [][]int{{1}, {1}}, PreOpen: true, Flusher: true, FailS3: true, P: 1, D: 1},
-			vProdScenario{Name: "3p-explicit", Producers: [][]int{{1}, {1}, {2}}, PreOpen: true, FailS3: true},
-			vProdScenario{Name: "3p-maxbatches2", Producers: [][]int{{1}, {1}, {2}}, MaxBatches: 2, PreOpen: true, FailS3: true},
-			vProdScenario{Name: "2p-2b", Producers: [][]int{{1, 1}, {2, 1}}, PreOpen: true, FailS3: true},
-			vProdScenario{Name: "2p-2b-maxbatches2", Producers: [][]int{{1, 1}, {2, 1}}, MaxBatches: 2, PreOpen: true, FailS3: true},
+			vProdScenario{Name: "2p-flusher", Producers: [][]int{{1}, {1}}, PreOpen: true, Flusher: true, FailS3: true, P: 3, D: 2, Delay: true},
+			vProdScenario{Name: "3p-explicit", Producers: [][]int{{1}, {1}, {2}}, PreOpen: true, FailS3: true, P: 3, D: 2, Delay: true},
+			vProdScenario{Name: "3p-maxbatches2", Producers: [][]int{{1}, {1}, {2}}, MaxBatches: 2, PreOpen: true, FailS3: true, P: 3, D: 2, Delay: true},
+			vProdScenario{Name: "2p-2b", Producers: [][]int{{1, 1}, {2, 1}}, PreOpen: true, FailS3: true, P: 3, D: 2, Delay: true},
+			vProdScenario{Name: "2p-2b-maxbatches2", Producers: [][]int{{1, 1}, {2, 1}}, MaxBatches: 2, PreOpen: true, FailS3: true, P: 3, D: 2, Delay: true},
 		)
 	}
 	return sc
@@ -158,7 +158,7 @@ func TestVerifC01(t *testing.T) {
 		if sc.P > 0 {
 			p, d = sc.P, sc.D
 		}
-		st := sched.Explore(t, sched.Config{MaxPreempt: p, MaxDev: d, Deadline: deadline, Shard: shard, NShards: n}, body, func(x *sched.Exec) {
+		st := sched.Explore(t, sched.Config{MaxPreempt: p, MaxDev: d, Deadline: deadline, Shard: shard, NShards: n, DelayBound: sc.Delay}, body, func(x *sched.Exec) {
 			rep.Eval(1)
 			sw, dev := x.NonDefault()
 			sig := sc.Name + "|" + fmt.Sprint(x.Notes)
